@@ -19,6 +19,7 @@
   free-form dates are outside the model.
 -/
 import Fsel.Model.Eval
+import Fsel.Lemmas.Civil
 
 namespace Fsel.C13
 open Fsel
@@ -136,5 +137,45 @@ theorem regex_day_literal (y1 y2 y3 y4 m1 m2 d1 d2 s1 s2 : Char)
     dateRegexAt [y1, y2, y3, y4, s1, m1, m2, s2, d1, d2] =
       some (digitsVal [y1, y2, y3, y4], digitsVal [m1, m2], digitsVal [d1, d2], none, none, none) := by
   simp [dateRegexAt, digits12, hy.1, hy.2.1, hy.2.2.1, hy.2.2.2, hm.1, hm.2, hd.1, hd.2, hs.1, hs.2]
+
+/-! ### the printed `modified` column is the inverse of the literal reading -/
+
+/-- day number and second of day of a civil time -/
+theorem secsOf_split (y : Int) (mo d h mi s : Nat) (hh : h < 24) (hm : mi < 60) (hs : s < 60) :
+    secsOf y mo d h mi s / 86400 = daysFromCivil y mo d ∧
+    (secsOf y mo d h mi s % 86400).toNat = h * 3600 + mi * 60 + s := by
+  unfold secsOf
+  generalize daysFromCivil y mo d = D
+  have hb : h * 3600 + mi * 60 + s < 86400 := by omega
+  constructor
+  · simp only [Int.ofNat_eq_natCast]; omega
+  · simp only [Int.ofNat_eq_natCast]; omega
+
+/-- **printing inverts reading**: the entry whose time is the instant a full-precision literal denotes
+    prints exactly that literal's fields — for every valid civil date (any year) and time of day.  With
+    `interval_second` (a = b = `secsOf …`) this ties the `modified` column to the comparison table: the
+    printed text, read back as a literal, denotes the entry's own second. -/
+theorem format_inverts_literal (y : Int) (mo d h mi s : Nat) (hv : validCivil y mo d = true)
+    (hh : h < 24) (hm : mi < 60) (hs : s < 60) :
+    formatDatetime (secsOf y mo d h mi s) =
+      pad4 y.toNat ++ ['-'] ++ pad2 mo ++ ['-'] ++ pad2 d ++ [' '] ++ pad2 h ++ [':'] ++ pad2 mi ++ [':'] ++ pad2 s := by
+  obtain ⟨h1, h2⟩ := secsOf_split y mo d h mi s hh hm hs
+  unfold formatDatetime
+  simp only [h1, h2, CivilL.civil_roundtrip y mo d hv]
+  have e1 : (h * 3600 + mi * 60 + s) / 3600 = h := by omega
+  have e2 : (h * 3600 + mi * 60 + s) / 60 % 60 = mi := by omega
+  have e3 : (h * 3600 + mi * 60 + s) % 60 = s := by omega
+  rw [e1, e2, e3]
+
+/-- the printed date of a day number that a valid date denotes is that date -/
+theorem format_date_inverts (y : Int) (mo d : Nat) (hv : validCivil y mo d = true) :
+    formatDate (daysFromCivil y mo d) = pad4 y.toNat ++ ['-'] ++ pad2 mo ++ ['-'] ++ pad2 d := by
+  unfold formatDate
+  simp only [CivilL.civil_roundtrip y mo d hv]
+
+/-- two valid dates with the same day number are the same date: day literals denote disjoint intervals -/
+theorem days_injective (y1 y2 : Int) (m1 d1 m2 d2 : Nat) (h1 : validCivil y1 m1 d1 = true) (h2 : validCivil y2 m2 d2 = true)
+    (h : daysFromCivil y1 m1 d1 = daysFromCivil y2 m2 d2) : (y1, m1, d1) = (y2, m2, d2) := by
+  rw [← CivilL.civil_roundtrip y1 m1 d1 h1, ← CivilL.civil_roundtrip y2 m2 d2 h2, h]
 
 end Fsel.C13
